@@ -93,3 +93,9 @@ VARIANTS = [
     silent("c01-number-accepts-bare-exponent",
            [(SL, 'NUMBER = r"[-+]?[0-9]*\\.[0-9]+([eE][-+]?[0-9]+)?"', 'NUMBER = r"[-+]?([0-9]*\\.[0-9]+([eE][-+]?[0-9]+)?|[0-9]+[eE][-+]?[0-9]+)"')], P),
 ]
+
+VARIANTS += [
+    fire("c01-slice-stop-prints-start",
+         [(GE, '    stop = "" if s.stop is None else generate_jaqal_value(s.stop)', '    stop = "" if s.stop is None else generate_jaqal_value(s.start)')],
+         ("C01.3", "notate_slice:slice-positions"), P),
+]
